@@ -228,8 +228,25 @@ def check_qr(A4, tol=1e-10):
 
 def replay_qr(seed):
     rng = np.random.default_rng(seed)
-    for (m, n) in ((3, 2), (2, 2), (4, 1), (2, 4), (1, 3), (5, 3)):
-        A4 = rng.standard_normal((m, n, 4))
+    inputs = [rng.standard_normal((m, n, 4)) for (m, n) in ((3, 2), (2, 2), (4, 1), (2, 4), (1, 3), (5, 3))]
+    # full-rank structured inputs, where LAPACK's sign choices differ inside a 4x4 block: columns already in triangular form, -I, unit-quaternion diagonals
+    for (m, n) in ((3, 3), (2, 2), (4, 3)):
+        T = rng.standard_normal((m, n, 4))
+        for j in range(n):
+            T[j + 1:, j, :] = 0.0
+        inputs.append(T)
+        T1 = rng.standard_normal((m, n, 4))
+        T1[1:, 0, :] = 0.0
+        inputs.append(T1)
+    M = np.zeros((2, 2, 4))
+    M[0, 0, 0] = M[1, 1, 0] = -1.0
+    inputs.append(M)
+    Dq = np.zeros((3, 3, 4))
+    for j in range(3):
+        Dq[j, j, 1 + j % 3] = j + 1.0
+    inputs.append(Dq)
+    for A4 in inputs:
+        m, n = A4.shape[:2]
         try:
             res, facts = check_qr(A4)
         except Exception as e:
